@@ -14,6 +14,7 @@ import (
 	"github.com/lyraproj/pcore/hash"
 	"github.com/lyraproj/pcore/px"
 	"github.com/lyraproj/pcore/utils"
+	"github.com/lyraproj/pcore/verifhook"
 )
 
 type (
@@ -1399,6 +1400,7 @@ func (hv *Hash) privateDetailedType() px.Type {
 			for idx, entry := range hv.entries {
 				structEntries[idx] = NewStructElement(entry.key, valueTypes[idx])
 			}
+			verifhook.Point("hash.detailed.window")
 			hv.detailedType = NewStructType(structEntries)
 		} else {
 			// the exact key and value types: the variants of the detailed types of the keys and of the values
@@ -1418,6 +1420,7 @@ func (hv *Hash) privateReducedType() px.Type {
 			sz := int64(top)
 			ht := NewHashType(DefaultAnyType(), DefaultAnyType(), NewIntegerType(sz, sz))
 			hv.reducedType = ht
+			verifhook.Point("hash.reduced.window")
 			firstEntry := hv.entries[0]
 			commonKeyType := firstEntry.key.PType()
 			commonValueType := firstEntry.value.PType()
@@ -1439,6 +1442,7 @@ func (hv *Hash) valueIndex() map[px.HashKey]int {
 		for idx, entry := range hv.entries {
 			result[px.ToKey(entry.key)] = idx
 		}
+		verifhook.Point("hash.index.window")
 		hv.index = result
 	}
 	return hv.index
